@@ -20,7 +20,7 @@ var (
 	// non-minimal zero compression - and each universe holds one pair of different spellings of
 	// the same prefix: the RIB keys entries by the string it was given, so these are distinct keys)
 	V4s      = []string{"1.0.0.0/8", "2.2.0.0/16", "10.1.1.0/24", "3.3.3.3/32", "10.1.1.9/24"}
-	V6s      = []string{"2001:db8::/32", "2001:db8:1::/48", "::/0", "2001:DB8:CAFE::/48", "2001:db8:0:1::/64", "2001:db8:cafe::/48"}
+	V6s      = []string{"2001:db8::/32", "2001:db8:1::/48", "::/0", "2001:DB8:CAFE::/48", "2001:db8:0:1::/64", "2001:db8:cafe::/48", "2001:db8:0:1::1/64"}
 	Labels   = []uint64{100, 101, 1048575}
 	IDs      = []uint64{1, 2, 3, 4}
 	IPs      = []string{"192.0.2.1", "198.51.100.7", "2001:db8::1"}
